@@ -32,6 +32,10 @@ type Spec struct {
 	// through its GetReadSeeker): verdicts are cached and the inner pool's handle is somewhere in that file
 	Peek    int `json:"peek,omitempty"`
 	PeekIdx int `json:"peek_idx,omitempty"`
+	// SigCut > 0: the safekeeper is given only the first SigCut bytes of the old build's signature stream
+	// (-1: none of it): the signature cannot be loaded, and the application must fail - never complete with
+	// something else than the new build
+	SigCut int `json:"sig_cut,omitempty"`
 }
 
 // apply the damages to a copy of the old tree's bytes (the model) and to disk
@@ -200,7 +204,27 @@ func check(s Spec) h.Result {
 	if s.Peek > 0 {
 		cl = append(cl, "safekeeper:used-before-the-application")
 	}
-	err = h.ApplyFresh(patch, dd, out, &h.ApplyOpts{WrapPool: h.SafeKeeperWrap(sdf.Sig), Peek: s.Peek, PeekIdx: s.PeekIdx})
+	sig := sdf.Sig
+	if s.SigCut != 0 {
+		n := s.SigCut
+		if n < 0 {
+			n = 0
+		}
+		if n < len(sig) {
+			sig = sig[:n]
+			cl = append(cl, "signature:unreadable-(cut-short)")
+		}
+	}
+	err = h.ApplyFresh(patch, dd, out, &h.ApplyOpts{WrapPool: h.SafeKeeperWrap(sig), Peek: s.Peek, PeekIdx: s.PeekIdx})
+	if len(sig) < len(sdf.Sig) {
+		// no verdict about rejection with a broken signature; only: error, or exactly the new build
+		if err == nil {
+			if m := h.CheckDir(out, s.Pair.New, false); m != "" {
+				return h.Result{Fail: fmt.Sprintf("the safekeeper could not load its signature (%d of %d bytes), yet the application succeeded with a wrong result: %s", len(sig), len(sdf.Sig), m), Classes: cl}
+			}
+		}
+		return h.Result{Classes: cl}
+	}
 	if err == nil {
 		if m := h.CheckDir(out, s.Pair.New, false); m != "" {
 			if damaged {
@@ -312,6 +336,13 @@ var prop = h.Prop[Spec]{
 			s.Parts = rapid.IntRange(0, 2).Draw(t, "parts")
 		}
 		s.Damages = genDamage(t, s.Pair.Old)
+		if rapid.IntRange(0, 9).Draw(t, "cut-signature") == 0 {
+			// cuts inside magic or right behind it only: ReadSignature must fail there under every compression
+			// setting. (A stream cut right behind its header reads back, without error, as the signature of an
+			// EMPTY build; a safekeeper given that for a non-empty build indexes out of range. That is a
+			// signature of another build, which C09 does not quantify over - noted in DESIGN §11.)
+			s.SigCut = rapid.SampledFrom([]int{-1, 1, 4, 5}).Draw(t, "sig-cut")
+		}
 		if rapid.IntRange(0, 3).Draw(t, "used-safekeeper") == 0 {
 			s.Peek = rapid.SampledFrom([]int{1, h.BS + 1, 1 << 30}).Draw(t, "peek-bytes")
 			s.PeekIdx = rapid.IntRange(0, 7).Draw(t, "peek-idx")
